@@ -140,6 +140,25 @@ def run(ck):
             else:
                 s = "<mjml><mj-body>" + ("<%s>" % tag) * depth + ("</%s>" % tag) * depth + "</mj-body></mjml>"
             jobs2.append({"id": len(jobs2), "src": s, "kind": "deep:%s:%d" % (tag, depth), "timeout_ms": 20000})
+    # misplaced components: every known tag (alone, and with each known tag as its only child) directly inside every container
+    tags_all = sorted(set(vlib.load_facts()["factory_tags"]) | {"mj-raw"})
+    conts = {"body": "%s", "section": "<mj-section>%s</mj-section>", "column": "<mj-section><mj-column>%s</mj-column></mj-section>",
+             "group": "<mj-section><mj-group>%s</mj-group></mj-section>", "group-column": "<mj-section><mj-group><mj-column>%s</mj-column></mj-group></mj-section>",
+             "wrapper": "<mj-wrapper>%s</mj-wrapper>", "wrapper-column": "<mj-wrapper><mj-section><mj-column>%s</mj-column></mj-section></mj-wrapper>", "hero": "<mj-hero>%s</mj-hero>"}
+    def elem(t, inner=""):
+        a = ' src="https://x/a.png"' if t in ("mj-image", "mj-carousel-image") else ""
+        return "<%s%s>%s</%s>" % (t, a, inner, t)
+    for cn, cf in conts.items():
+        for t in tags_all:
+            if t in ("mjml", "mj-body", "mj-head"):
+                continue
+            jobs2.append({"id": len(jobs2), "src": "<mjml><mj-body>%s</mj-body></mjml>" % (cf % elem(t, "x" if t in ("mj-text", "mj-button", "mj-raw") else "")), "kind": "misplaced:%s>%s" % (cn, t)})
+            if cn in ("column", "hero", "body"):
+                for t2 in tags_all:
+                    if t2 in ("mjml", "mj-body", "mj-head") or t in ("mj-text", "mj-raw", "mj-table", "mj-button"):
+                        continue
+                    jobs2.append({"id": len(jobs2), "src": "<mjml><mj-body>%s</mj-body></mjml>" % (cf % elem(t, elem(t2, "y" if t2 in ("mj-text", "mj-button", "mj-raw", "mj-accordion-title", "mj-accordion-text", "mj-navbar-link", "mj-social-element") else ""))),
+                                  "kind": "misplaced:%s>%s>%s" % (cn, t, t2)})
     for s in ["", " ", "<", "<mjml", "<mjml>", "<mjml></mjml>", "\x00", "<mjml><mj-body></mj-body></mjml>", "<mj-body/>", "&", "<!--", "<mjml><mj-head></mjml>"]:
         jobs2.append({"id": len(jobs2), "src": s, "kind": "tiny"})
     res2, dead2 = run_jobs(hb, "render-safe", jobs2, timeout=1500)
